@@ -901,6 +901,11 @@ def run(ctx):
                 "built through every public form (TableIndex(field_names, field_domains) with list/tuple/domaintuple domains, TableIndex(fields=), "
                 "from_state_list / from_state_action_lists with ndarray or nested-list data, from_dict incl. absent pairs), integer or float cells, "
                 "cells = a random permutation of 0..N-1 for half the tables, 30% built from the objects of an already used twin table; "
+                "for 65% of the probability tables / 30% of the others the cells are real numbers compared bit-exactly (rows with tiny positive entries "
+                "2^-27..2^-60 next to exact zeros, non-dyadic rows, one-hot rows, rows with mass off 1 by 1e-9..1e-4, float32 and int-typed tables, "
+                "values ~1e3..1e9 with relative gaps 1e-6); sizes at the edges (all domains of size 1, as many actions as states, the same sequence "
+                "for two fields); every table's first results are re-queried after a different table was indexed with the same selector objects, the "
+                "caller's domains/data/selectors are snapshotted for mutation, 12 tables are rebuilt later in the same process; "
                 "domains of 1-4 values drawn without ==-duplicates from a pool built to collide (0/False/0.0, 1/True/1.0, '1', (1,), (1,2), "
                 "(1.0,2), frozensets, None, ...), the outermost domain seeded with tuples that are also field-wise keys / whole domains; "
                 "plus tables with 4 (and a few with 5) outer keys indexed with ALL duplicate-free ordered lists of outer keys of length 3 and 4 "
